@@ -215,85 +215,96 @@ Lemma verdicts_cons e r n :
 Proof. reflexivity. Qed.
 
 Lemma Rf_reload f n s rs tcp udp def :
-  vinv n -> Rf f n s -> Rf f (reload rs tcp udp def n) (s_reload rs tcp udp def s).
+  vinv n -> Rf f n s -> Rf f (reload rs tcp udp def n) (s_reload true rs tcp udp def s).
 Proof.
-  intros [V1 V2] [Efw [Enow R]]. unfold reload, s_reload. rewrite <- Efw.
+  intros [V1 V2] [Efw [Enow R]]. unfold reload, s_reload. rewrite <- Efw. cbn [andb].
   destruct (next_ver_cases _ V1) as [[E0 _]|[E1 L]].
   - rewrite E0. cbn [N.eqb]. split; [reflexivity|]. split; [exact Enow|]. exact I.
   - rewrite E1. assert (NZ : N.eqb (f_ver (n_fw n) + 1) 0 = false) by (apply N.eqb_neq; lia). rewrite NZ.
     split; [reflexivity|]. split; [exact Enow|]. unfold conns_of in *. cbn [n_ct s_fw s_now s_fs].
-    destruct (s_fs s) as [|e d0 fr|]; cbn [Rfs] in *; auto.
+    destruct (s_fs s) as [|e d0 fr]; cbn [Rfs] in *; auto.
     destruct (cfind f (ct_conns (n_ct n))) as [c|] eqn:F; [|exact R].
     destruct R as [R|[M1 [M2 M3]]]; [now left|right]. repeat split; auto. cbn [f_ver].
     symmetry. apply N.eqb_neq. specialize (V2 f c F). lia.
 Qed.
 
-Theorem model_meets_spec f : forall h n s,
-  vinv n -> Rf f n s -> flow_ok f s h (verdicts h n) = true.
+(* one event keeps the relation between the node and the specification state of flow f *)
+Lemma Rf_step f e n s : vinv n -> Rf f n s -> Rf f (snd (step e n)) (s_step true f e s).
 Proof.
-  induction h as [|e h IH]; intros n s V R; [reflexivity|].
-  pose proof (vinv_step e n V) as V'. rewrite verdicts_cons.
-  destruct e as [p d t|d|rs tcp udp def].
+  intros V R. destruct e as [p d t|d|rs tcp udp def].
   - destruct R as [Efw [Enow R]]. destruct (step_pkt_fw p d t n) as [Efw' Enow'].
     destruct s as [sfw snow fs]. cbn [s_fw s_now s_fs] in *. subst sfw snow.
-    cbn [FwReload.flow_ok s_fw s_now s_fs]. destruct (tuple_eqb f t) eqn:E.
+    cbn [FwReload.s_step s_fw s_now s_fs]. destruct (tuple_eqb f t) eqn:E.
     + apply tuple_eqb_eq in E. subst t. destruct (addr_ok (f_rules (n_fw n)) p f) eqn:A.
-      * destruct (step_pkt_same p d f n A) as [S1 S2]. rewrite S1. cbn [app].
+      * destruct (step_pkt_same p d f n A) as [S1 S2].
         assert (R1 : Rfs (n_fw n) (n_now n) fs (cfind f (ct_conns (pre_purge (n_now n) (n_ct n))))).
         { apply Rfs_shrinks with (m := conns_of n); [|exact R]. apply pre_purge_shrinks. }
         destruct (tail_spec (n_fw n) (n_now n) fs p d f _ A R1) as [J Rn].
-        unfold pkt_o in *. rewrite J. cbn [andb].
-        apply IH; [exact V'|]. split; [exact Efw'|]. split; [exact Enow'|]. cbn [s_fw s_now s_fs]. now rewrite S2.
-      * rewrite (step_pkt_refused p d f n A). cbn [fst snd app].
-        unfold FwReload.fl_judge, FwReload.fl_next. rewrite A. cbn [negb judge_ok Bool.eqb andb].
-        apply IH; [exact V|]. repeat split; auto.
-    + destruct (fst (step (EPkt p d t) n)) as [v|] eqn:Fv.
-      2:{ unfold FwReload.step in Fv. destruct (drop _ _ _ _ _ _ _ _) in Fv. discriminate Fv. }
-      cbn [app]. apply IH; [exact V'|]. split; [exact Efw'|]. split; [exact Enow'|]. cbn [s_fw s_now s_fs].
+        unfold pkt_o in *. split; [exact Efw'|]. split; [exact Enow'|]. cbn [s_fw s_now s_fs]. now rewrite S2.
+      * rewrite (step_pkt_refused p d f n A). cbn [snd]. unfold FwReload.fl_next. rewrite A. cbn [negb].
+        repeat split; auto.
+    + split; [exact Efw'|]. split; [exact Enow'|]. cbn [s_fw s_now s_fs].
       destruct (step_pkt_frame p d t n f E) as [m1 [Sh Fm]]. rewrite Fm.
       apply Rfs_shrinks with (m := conns_of n); [exact Sh|exact R].
-  - cbn [FwReload.step fst snd app FwReload.flow_ok]. apply IH; [exact V'|].
-    destruct R as [Efw [Enow R]]. repeat split; cbn [n_fw n_now n_ct s_fw s_now s_fs conns_of]; try congruence.
+  - destruct R as [Efw [Enow R]]. cbn [FwReload.step snd FwReload.s_step].
+    repeat split; cbn [n_fw n_now n_ct s_fw s_now s_fs conns_of]; try congruence.
     rewrite <- Enow. apply Rfs_time with (now := n_now n); [lia|now rewrite Enow].
-  - cbn [FwReload.step fst snd app FwReload.flow_ok]. apply IH; [exact V'|]. now apply Rf_reload.
+  - cbn [FwReload.step snd FwReload.s_step]. now apply Rf_reload.
+Qed.
+
+(* the verdict of a packet of flow f is the specification's *)
+Lemma Rf_verdict f p d n s : Rf f n s ->
+  fst (step (EPkt p d f) n) = Some (fl_verdict (s_fw s) (s_now s) (s_fs s) p d f).
+Proof.
+  intros [Efw [Enow R]]. rewrite <- Efw, <- Enow. destruct (addr_ok (f_rules (n_fw n)) p f) eqn:A.
+  - destruct (step_pkt_same p d f n A) as [S1 _]. rewrite S1. f_equal. unfold pkt_o.
+    apply tail_spec; [exact A|]. rewrite Efw, Enow.
+    apply Rfs_shrinks with (m := conns_of n); [|exact R]. rewrite <- Enow. apply pre_purge_shrinks.
+  - rewrite (step_pkt_refused p d f n A). unfold FwReload.fl_verdict. now rewrite A.
+Qed.
+
+Lemma step_pkt_some p d t n : exists v, fst (step (EPkt p d t) n) = Some v.
+Proof. unfold FwReload.step. destruct (drop _ _ _ _ _ _ _ _) as [v ct]. now exists v. Qed.
+
+Theorem verdicts_determined f : forall h n s,
+  vinv n -> Rf f n s -> restrict f h (verdicts h n) = flow_fn true f s h.
+Proof.
+  induction h as [|e h IH]; intros n s V R; [reflexivity|].
+  pose proof (vinv_step e n V) as V'. pose proof (Rf_step f e n s V R) as R'. rewrite verdicts_cons.
+  destruct e as [p d t|d|rs tcp udp def].
+  - destruct (step_pkt_some p d t n) as [v Ev]. rewrite Ev. cbn [app restrict FwReload.flow_fn].
+    destruct (tuple_eqb f t) eqn:E.
+    + apply tuple_eqb_eq in E. subst t. rewrite (Rf_verdict f p d n s R) in Ev. injection Ev as <-.
+      f_equal. apply IH; [exact V'|exact R'].
+    + apply IH; [exact V'|]. cbn [FwReload.s_step] in R'. now rewrite E in R'.
+  - cbn [FwReload.step fst app restrict FwReload.flow_fn]. now apply IH.
+  - cbn [FwReload.step fst app restrict FwReload.flow_fn]. now apply IH.
+Qed.
+
+Theorem model_meets_spec f : forall h n s,
+  vinv n -> Rf f n s -> flow_ok true f s h (verdicts h n) = true.
+Proof.
+  induction h as [|e h IH]; intros n s V R; [reflexivity|].
+  pose proof (vinv_step e n V) as V'. pose proof (Rf_step f e n s V R) as R'. rewrite verdicts_cons.
+  destruct e as [p d t|d|rs tcp udp def].
+  - destruct (step_pkt_some p d t n) as [v Ev]. rewrite Ev. cbn [app FwReload.flow_ok].
+    rewrite (IH _ _ V' R'), andb_true_r. destruct (tuple_eqb f t) eqn:E; [|reflexivity].
+    apply tuple_eqb_eq in E. subst t. rewrite (Rf_verdict f p d n s R) in Ev. injection Ev as <-.
+    apply Bool.eqb_reflx.
+  - cbn [FwReload.step fst app FwReload.flow_ok]. now apply IH.
+  - cbn [FwReload.step fst app FwReload.flow_ok]. now apply IH.
 Qed.
 
 Lemma Rf_boot f rs v0 tcp udp def t0 : Rf f (boot rs v0 tcp udp def t0) (spec_boot rs v0 tcp udp def t0).
 Proof. repeat split. Qed.
 
-(* ---- off the boundary the specification leaves one verdict sequence: flows are independent --------------- *)
+(* ---- the verdicts of a flow depend on its own packets only --------------------------------------------------- *)
 
-Lemma step_pkt_some p d t n : exists v, fst (step (EPkt p d t) n) = Some v.
-Proof. unfold FwReload.step. destruct (drop _ _ _ _ _ _ _ _) as [v ct]. now exists v. Qed.
-
-Lemma flow_ok_forced f : forall h s vs,
-  flow_ok f s h vs = true -> boundary_free f s h = true -> restrict f h vs = flow_fn f s h.
-Proof.
-  induction h as [|e h IH]; intros s vs O B; [reflexivity|].
-  destruct e as [p d t|d|rs tcp udp def]; cbn [FwReload.flow_ok FwReload.boundary_free restrict FwReload.flow_fn] in *.
-  - destruct vs as [|v vs]; [discriminate O|]. destruct (tuple_eqb f t).
-    + apply andb_prop in O as [O1 O2]. apply andb_prop in B as [B1 B2].
-      destruct (fl_judge (s_fw s) (s_now s) (s_fs s) p d f) as [b|a]; [|discriminate B1].
-      cbn [judge_ok forced_val] in *. apply Bool.eqb_prop in O1. subst v. f_equal. now apply IH.
-    + now apply IH.
-  - now apply IH.
-  - now apply IH.
-Qed.
-
-Lemma flow_fn_proj f : forall h s, flow_fn f s (proj f h) = flow_fn f s h.
+Lemma flow_fn_proj wr f : forall h s, flow_fn wr f s (proj f h) = flow_fn wr f s h.
 Proof.
   induction h as [|e h IH]; intros s; [reflexivity|].
   destruct e as [p d t|d|rs tcp udp def]; cbn [proj FwReload.flow_fn].
   - destruct (tuple_eqb f t) eqn:E; [|apply IH]. cbn [FwReload.flow_fn]. rewrite E. f_equal. apply IH.
-  - apply IH.
-  - apply IH.
-Qed.
-
-Lemma boundary_free_proj f : forall h s, boundary_free f s (proj f h) = boundary_free f s h.
-Proof.
-  induction h as [|e h IH]; intros s; [reflexivity|].
-  destruct e as [p d t|d|rs tcp udp def]; cbn [proj FwReload.boundary_free].
-  - destruct (tuple_eqb f t) eqn:E; [|apply IH]. cbn [FwReload.boundary_free]. rewrite E. f_equal. apply IH.
   - apply IH.
   - apply IH.
 Qed.
@@ -308,16 +319,38 @@ Proof.
   - rewrite verdicts_cons. cbn [FwReload.step fst snd app restrict]. apply IH.
 Qed.
 
-Theorem verdicts_determined f h n s :
-  vinv n -> Rf f n s -> boundary_free f s h = true -> restrict f h (verdicts h n) = flow_fn f s h.
-Proof. intros V R B. apply flow_ok_forced; [now apply model_meets_spec|exact B]. Qed.
-
 Theorem flows_independent f h n s :
-  vinv n -> Rf f n s -> boundary_free f s h = true ->
-  restrict f h (verdicts h n) = verdicts (proj f h) n.
+  vinv n -> Rf f n s -> restrict f h (verdicts h n) = verdicts (proj f h) n.
 Proof.
-  intros V R B. rewrite (verdicts_determined f h n s V R B), <- flow_fn_proj.
-  rewrite <- (verdicts_determined f (proj f h) n s V R); [apply restrict_proj_all|now rewrite boundary_free_proj].
+  intros V R. rewrite (verdicts_determined f h n s V R), <- flow_fn_proj.
+  rewrite <- (verdicts_determined f (proj f h) n s V R). apply restrict_proj_all.
+Qed.
+
+(* the specification that never resets (the property as stated) agrees with the code's on histories without a wrap *)
+Lemma flow_fn_no_wrap f : forall h s,
+  no_wrap (f_ver (s_fw s)) h = true -> flow_fn false f s h = flow_fn true f s h.
+Proof.
+  induction h as [|e h IH]; intros s NW; [reflexivity|].
+  destruct e as [p d t|d|rs tcp udp def]; cbn [FwReload.flow_fn no_wrap] in *.
+  - destruct (tuple_eqb f t); [f_equal|]; apply IH; cbn [FwReload.s_step]; try destruct (tuple_eqb f t); exact NW.
+  - apply IH. exact NW.
+  - apply andb_prop in NW as [N1 N2]. apply negb_true_iff in N1.
+    assert (E : s_step false f (EReload rs tcp udp def) s = s_step true f (EReload rs tcp udp def) s).
+    { cbn [FwReload.s_step]. unfold s_reload. rewrite N1. reflexivity. }
+    rewrite E. apply IH. cbn [FwReload.s_step]. unfold s_reload. cbn [s_fw f_ver]. exact N2.
+Qed.
+
+Lemma flow_ok_no_wrap f : forall h s vs,
+  no_wrap (f_ver (s_fw s)) h = true -> flow_ok false f s h vs = flow_ok true f s h vs.
+Proof.
+  induction h as [|e h IH]; intros s vs NW; [reflexivity|].
+  destruct e as [p d t|d|rs tcp udp def]; cbn [FwReload.flow_ok no_wrap] in *.
+  - destruct vs as [|v vs]; [reflexivity|]. f_equal. apply IH. cbn [FwReload.s_step]. now destruct (tuple_eqb f t).
+  - apply IH. exact NW.
+  - apply andb_prop in NW as [N1 N2]. apply negb_true_iff in N1.
+    assert (E : s_step false f (EReload rs tcp udp def) s = s_step true f (EReload rs tcp udp def) s).
+    { cbn [FwReload.s_step]. unfold s_reload. rewrite N1. reflexivity. }
+    rewrite E. apply IH. cbn [FwReload.s_step]. unfold s_reload. cbn [s_fw f_ver]. exact N2.
 Qed.
 
 (* ---- a flow that is not honoured stays so until a rule allows it ------------------------------------------ *)
@@ -402,13 +435,13 @@ Proof.
   - destruct (allowed _ _ _ _); cbn [fst snd]; [eauto|discriminate].
 Qed.
 
-(* while only sleeps and packets of other flows happen, the entry c0 of f is untouched, or gone once its time has come *)
+(* while only sleeps and packets of other flows happen, the entry c0 of f is untouched, or gone once its time has passed *)
 Definition held (f : tuple) (c0 : conn) (n : node) : Prop :=
-  (forall c, cfind f (conns_of n) = Some c -> c = c0) /\ (n_now n < c_exp c0 -> cfind f (conns_of n) = Some c0).
+  (forall c, cfind f (conns_of n) = Some c -> c = c0) /\ (n_now n <= c_exp c0 -> cfind f (conns_of n) = Some c0).
 
 Lemma held_shrinks f c0 n m1 :
   held f c0 n -> shrinks (n_now n) (conns_of n) m1 ->
-  (forall c, cfind f m1 = Some c -> c = c0) /\ (n_now n < c_exp c0 -> cfind f m1 = Some c0).
+  (forall c, cfind f m1 = Some c -> c = c0) /\ (n_now n <= c_exp c0 -> cfind f m1 = Some c0).
 Proof.
   intros [H1 H2] S. destruct (S f) as [S1 S2]. split.
   - intros c F. apply H1. now apply S1.
@@ -440,7 +473,7 @@ Theorem idle_after_pass p d f n h2 p' d' :
   others_only f h2 = true ->
   addr_ok (f_rules (n_fw n)) p' f = true ->
   let n2 := exec h2 (snd (step (EPkt p d f) n)) in
-  (elapsed h2 < timeout_of (n_fw n) f -> fst (step (EPkt p' d' f) n2) = Some true) /\
+  (elapsed h2 <= timeout_of (n_fw n) f -> fst (step (EPkt p' d' f) n2) = Some true) /\
   (timeout_of (n_fw n) f < elapsed h2 -> allowed (f_rules (n_fw n)) p' d' f = false ->
    fst (step (EPkt p' d' f) n2) = Some false).
 Proof.
